@@ -280,7 +280,24 @@ RES_POOL = [
     ("U", ["P", "OP1", "O2'"], "ATOM"),
     ("MSE", ["N", "CA", "SE"], "HETATM"),
     ("ALA", ["N", "H", "1HB", "2HB"], "ATOM"),
+    # nucleotides with input hydrogens, both naming generations, terminal hydrogens
+    ("DA", ["P", "O5'", "C5'", "H5'", "H5''", "H4'", "H2'", "H2''", "H8", "H61"], "ATOM"),
+    ("DA", ["O5'", "H5T", "C5'", "O3'", "H3T"], "ATOM"),
+    ("DT", ["O5'", "HO5'", "C5'", "H5'1", "H5'2", "O3'", "HO3'", "H71", "H3"], "ATOM"),
+    ("A", ["P", "O5'", "HO5'", "O2'", "HO2'", "H2'", "H1'", "H8", "H2"], "ATOM"),
+    ("U", ["O5'", "H5T", "O2'", "HO'2", "2HO'", "H5", "H6", "H3", "O3'", "H3T"], "ATOM"),
+    ("G", ["P", "OP1", "O5'", "H1", "H21", "H22", "HO2'", "HO3'"], "ATOM"),
+    ("DC", ["P", "O1P", "O5'", "H41", "H42", "H5", "H6", "H2'1", "H2'2"], "ATOM"),
+    ("DG", ["O5'", "C5'", "1H5'", "2H5'", "H1", "H8", "HO3'"], "ATOM"),
+    ("RC", ["P", "O5'", "H5T", "HO2'", "H41"], "ATOM"),
+    # amino acids / waters with atoms the reference topology does not name
+    ("ALA", ["N", "CA", "C", "O", "OXT", "HXT", "HB4", "H99"], "ATOM"),
+    ("GLY", ["N", "H1", "H2", "H3", "CA", "HA2", "HA3", "XX1", "D1"], "ATOM"),
+    ("HOH", ["O", "H1", "H2", "H3", "M", "EP1"], "HETATM"),
+    ("WAT", ["OW", "HW", "H99", "LP1"], "ATOM"),
 ]
+# names no reference map contains: appended to residues of every kind at a modest rate
+EXTRA_NAMES = ["H99", "HXT", "HO5'", "H5T", "HO3'", "H3T", "HO2'", "HZ9", "1HX", "HQ", "XX1", "D1", "Q", "M1", "OXX", "C99", "LP1"]
 
 
 def coord(rng):
@@ -424,6 +441,14 @@ def gen_structured(rng, k):
         if resn in ("HOH", "WAT"):
             feats.add("water")
         names = names[: rng.choice([1, 2, 3, len(names), len(names)])]
+        if rng.random() < 0.25:
+            # atoms the residue's reference topology does not name (hydrogen-like and heavy-like)
+            extra = [n for n in rng.sample(EXTRA_NAMES, rng.choice([1, 1, 2])) if n not in names]
+            pos = rng.randrange(len(names) + 1)
+            names = names[:pos] + extra + names[pos:]
+            feats.add("unmapped-atom-names")
+        if resn in ("A", "C", "G", "U", "DA", "DC", "DG", "DT", "RA", "RC", "RG", "RU"):
+            feats.add("nucleotide")
         ic = rng.choice(["", "", "", "A", "B"])
         if ic_forced is not None:
             ic = ic_forced
